@@ -55,9 +55,55 @@ fn cmd_run(args: &[String]) -> i32 {
         None => (0, 1),
     };
     let progress_path = arg(args, "--progress");
+    let resume_after = arg(args, "--resume-after");
+    let event_budget: usize = arg(args, "--event-budget")
+        .and_then(|s| s.parse().ok())
+        .unwrap_or(1_500_000);
+    let mut skipping = resume_after.is_some();
     let input = std::io::BufReader::new(std::fs::File::open(&scn_path).expect("open scenarios"));
     let mut out = BufWriter::new(std::fs::File::create(&out_path).expect("create out"));
     let mut engine = exec::Engine::new(&root);
+    // Watchdog: n2 blocked forever (e.g. waiting for a completion that never comes) is a
+    // verdict about the code under test, not a tool failure: flush what was recorded for the
+    // run in progress, mark it, and stop this process with status 3 (the driver resumes
+    // after the scenario).
+    {
+        let out_path = out_path.clone();
+        std::thread::spawn(move || {
+            use std::sync::atomic::Ordering;
+            let mut last = exec::HEARTBEAT.load(Ordering::Relaxed);
+            let mut idle = 0u32;
+            loop {
+                std::thread::sleep(std::time::Duration::from_millis(500));
+                let now = exec::HEARTBEAT.load(Ordering::Relaxed);
+                if now != last || !exec::IN_INVOCATION.load(Ordering::SeqCst) {
+                    last = now;
+                    idle = 0;
+                    continue;
+                }
+                idle += 1;
+                if idle >= 20 {
+                    let evs = exec::CUR_EVENTS.lock().unwrap().clone();
+                    if let Ok(mut f) = std::fs::OpenOptions::new()
+                        .create(true)
+                        .append(true)
+                        .open(format!("{}.hang", out_path))
+                    {
+                        for e in evs {
+                            let _ = writeln!(f, "{}", e);
+                        }
+                        let _ = writeln!(
+                            f,
+                            "{}",
+                            serde_json::json!({"e":"end","exit":-1,"err":"","errk":"","errarg":"",
+                                "cyc":[],"panic":"","dead":"hang","summary":"none","n":-1,"warns":[]})
+                        );
+                    }
+                    std::process::exit(3);
+                }
+            }
+        });
+    }
     let mut n_scn = 0usize;
     let mut n_runs = 0usize;
     let mut n_events = 0usize;
@@ -74,6 +120,12 @@ fn cmd_run(args: &[String]) -> i32 {
                 return 2;
             }
         };
+        if skipping {
+            if Some(&scn.id) == resume_after.as_ref() {
+                skipping = false;
+            }
+            continue;
+        }
         if let Some(p) = &progress_path {
             let _ = std::fs::write(p, format!("{}\n{}\n", scn.id, line));
         }
@@ -84,9 +136,16 @@ fn cmd_run(args: &[String]) -> i32 {
                 n_events += 1;
             }
         });
+        let _ = out.flush();
         n_runs += runs;
         if truncated {
             n_trunc += 1;
+        }
+        if n_events > event_budget {
+            // far more than any healthy tree produces for these families: the code under
+            // test is misbehaving massively and what is recorded decides the checks
+            eprintln!("event budget exhausted after scenario {}", scn.id);
+            break;
         }
     }
     let _ = out.flush();
